@@ -1,7 +1,10 @@
 (* C36 — Scalar functions compute their documented values (partial: string index conventions, edit
    distances, Soundex, Luhn, codecs, bitwise words, civil-date arithmetic, conditional NULL rules).
    m_f = the engine as coded, s_f = documented (Trino) value, k_f = 0 iff the arguments are outside
-   every known deviation class.  Only statement pins, `exact` proofs and Print Assumptions. *)
+   every known deviation class.  Only statement pins, `exact` proofs and Print Assumptions.
+   After the engine repairs 3767e33 1657caf 584cd34 e4bd2bb e21b72e 08c65d9 0d7bffe the statements for
+   length, strpos/position, soundex, translate, to_hex, the shifts (non-negative amounts) and day_of_week
+   are unconditional regression theorems: the model EQUALS the documented value on every argument. *)
 From QV Require Import Base.Util Bytes.ByteStr C36.Model C36.Proofs.
 
 (* ---- Levenshtein: the two-row DP equals the recursive definition, for all strings ---- *)
@@ -21,19 +24,17 @@ Proof. exact luhn_eng_std. Qed.
 Theorem C36_luhn : forall s, k_luhn s = 0 -> spec_ok (s_luhn s) (m_luhn s) = true.
 Proof. exact luhn_agrees. Qed.
 
-(* ---- Soundex: the engine implements American Soundex except that vowels do not separate equal
-        codes (sx_known = that shape); outside that shape it equals commons-codec's US_ENGLISH ---- *)
-Theorem C36_soundex_loop : forall s,
-  (match map to_upper s with [] => false | c :: r => sx_known (sx_code c) false r end) = false ->
-  soundex_eng s = soundex_std s.
+(* ---- Soundex: the engine loop (early exit at four characters, prev_code kept only across H/W) is
+        American Soundex (commons-codec US_ENGLISH) for EVERY string ---- *)
+Theorem C36_soundex_loop : forall s, soundex_eng s = soundex_std s.
 Proof. exact soundex_eng_std. Qed.
-Theorem C36_soundex : forall s, k_soundex s = 0 -> spec_ok (s_soundex s) (m_soundex s) = true.
+Theorem C36_soundex : forall s, spec_ok (s_soundex s) (m_soundex s) = true.
 Proof. exact soundex_agrees. Qed.
 
 (* ---- string index conventions: model = documented value outside the known classes ---- *)
-Theorem C36_length : forall s, k_length s = 0 -> spec_ok (s_length s) (m_length s) = true.
+Theorem C36_length : forall s, spec_ok (s_length s) (m_length s) = true.
 Proof. exact length_agrees. Qed.
-Theorem C36_strpos : forall s sub, k_strpos s sub = 0 -> spec_ok (s_strpos s sub) (m_strpos s sub) = true.
+Theorem C36_strpos : forall s sub, spec_ok (s_strpos s sub) (m_strpos s sub) = true.
 Proof. exact strpos_agrees. Qed.
 Theorem C36_substr : forall cp s st ln,
   is_i64 (gi st) = true -> is_i64 (match ln with Some l => gi l | None => 0 end) = true ->
@@ -56,8 +57,11 @@ Theorem C36_repeat : forall s n, k_count s n = 0 -> spec_ok (s_repeat s n) (m_re
 Proof. exact repeat_agrees. Qed.
 Theorem C36_hamming : forall a b, k_hamming a b = 0 -> spec_ok (s_hamming a b) (m_hamming a b) = true.
 Proof. exact hamming_agrees. Qed.
-Theorem C36_translate : forall s f t, k_translate s f t = 0 -> spec_ok (s_translate s f t) (m_translate s f t) = true.
+Theorem C36_translate : forall s f t, spec_ok (s_translate s f t) (m_translate s f t) = true.
 Proof. exact translate_agrees. Qed.
+Theorem C36_translate_prefix_behaviour : forall fr tl c,
+  tr_eng fr tl c = tr_std fr tl c \/ (tr_std fr tl c = [] /\ tr_eng fr tl c = [c]).
+Proof. exact translate_prefix_behaviour. Qed.
 Theorem C36_concat : forall args, k_concat args = 0 -> spec_ok (s_concat args) (m_concat args) = true.
 Proof. exact concat_agrees. Qed.
 Theorem C36_greatest_least : forall gt args, k_extreme args = 0 -> spec_ok (s_extreme gt args) (m_extreme gt args) = true.
@@ -66,6 +70,11 @@ Proof. exact extreme_agrees. Qed.
 (* ---- codecs: decode (encode x) = x ---- *)
 Theorem C36_hex_roundtrip : forall up b, bytes b -> dec_hex (enc_hex up b) = Some b.
 Proof. exact hex_roundtrip. Qed.
+Theorem C36_to_hex : forall b, spec_ok (s_to_hex b) (m_to_hex b) = true.
+Proof. exact to_hex_agrees. Qed.
+Theorem C36_from_hex_to_hex : forall b, bytes b ->
+  match m_to_hex (Some b) with RStr h => m_from_hex (Some h) = RStr b | _ => False end.
+Proof. exact from_hex_to_hex. Qed.
 Theorem C36_base64_roundtrip : forall b, bytes b -> dec_b64 (enc_b64 b) = Some b.
 Proof. exact b64_roundtrip. Qed.
 Theorem C36_base32_group : forall a b c d e, is_byte a -> is_byte b -> is_byte c -> is_byte d -> is_byte e ->
@@ -101,6 +110,19 @@ Theorem C36_bitwise_not_value : forall x, is_i64 x = true -> m_bitwise_not (Some
 Proof. exact bitwise_not_value. Qed.
 Theorem C36_shift : forall kind x s, k_shift x s = 0 -> spec_ok (s_shift kind x s) (m_shift kind x s) = true.
 Proof. exact shift_agrees. Qed.
+(* ... i.e. for every non-negative amount, 64 and beyond included *)
+Theorem C36_shift_nonneg_total : forall kind a sv, 0 <= sv ->
+  spec_ok (s_shift kind (Some a) (Some sv)) (m_shift kind (Some a) (Some sv)) = true.
+Proof. exact shift_nonneg_total. Qed.
+Theorem C36_shift_ge64 : forall a sv, is_i64 a = true -> 64 <= sv ->
+  m_shift 0 (Some a) (Some sv) = RInt 0 /\ (to_u64 a * 2 ^ sv) mod two64 = 0 /\
+  m_shift 1 (Some a) (Some sv) = RInt 0 /\ to_u64 a / 2 ^ sv = 0 /\
+  m_shift 2 (Some a) (Some sv) = RInt (Z.shiftr a sv).
+Proof. exact shift_ge64_math. Qed.
+(* the remaining deviation: a negative amount saturates where Trino raises an error *)
+Theorem C36_shift_negative : forall kind a sv, sv < 0 ->
+  m_shift kind (Some a) (Some sv) = RInt (shift_saturated kind a) /\ s_shift kind (Some a) (Some sv) = Some RErr.
+Proof. exact shift_negative_saturates. Qed.
 Theorem C36_shift_left_word : forall a k, 0 <= k < 64 ->
   res_bits (m_shift 0 (Some a) (Some k)) (fun r => to_u64 r = (a * 2 ^ k) mod two64).
 Proof. exact shift_left_word. Qed.
@@ -123,9 +145,15 @@ Theorem C36_add_months_clamps : forall z k,
   let t := y * 12 + (m - 1) + k in
   civil_from_days (add_months z k) = (t / 12, t mod 12 + 1, Z.min d (dim (t / 12) (t mod 12 + 1))).
 Proof. exact add_months_clamps. Qed.
-Theorem C36_day_of_week_never_iso : forall z,
-  d_dow_sun z = d_dow_iso z mod 7 + 1 /\ d_dow_sun z <> d_dow_iso z /\ 1 <= d_dow_iso z <= 7.
-Proof. exact dow_sunday_vs_iso. Qed.
+Theorem C36_day_of_week : forall d, spec_ok (s_day_of_week d) (m_day_of_week d) = true.
+Proof. exact day_of_week_agrees. Qed.
+Theorem C36_day_of_week_iso : forall z,
+  m_day_of_week (Some z) = RInt (d_dow_iso z) /\ 1 <= d_dow_iso z <= 7 /\ d_dow_iso (z + 1) = d_dow_iso z mod 7 + 1
+  /\ d_dow_iso (z + 7) = d_dow_iso z /\ d_dow_sun z <> d_dow_iso z.
+Proof. exact day_of_week_iso. Qed.
+Theorem C36_day_of_week_anchors :
+  d_dow_iso 0 = 4 /\ d_dow_iso (days_from_civil 2024 1 1) = 1 /\ d_dow_iso (days_from_civil 2024 1 7) = 7.
+Proof. exact dow_iso_epoch. Qed.
 Theorem C36_date_diff_month : forall a b, date_ok a = true -> date_ok b = true ->
   k_date_diff (Some 2) (Some a) (Some b) = 0 ->
   spec_ok (s_date_diff (Some 2) (Some a) (Some b)) (m_date_diff (Some 2) (Some a) (Some b)) = true.
@@ -134,6 +162,9 @@ Proof. exact date_diff_month_agrees. Qed.
 (* ---- every known class is inhabited by a concrete witness where the model differs from the documented value ---- *)
 Theorem C36_deviations_witnessed : forallb (fun b => b) dev_witnesses = true.
 Proof. exact deviations_witnessed. Qed.
+(* ---- the witnesses of the eight repaired classes now yield the documented value ---- *)
+Theorem C36_regressions_fixed : forallb (fun b => b) fixed_regressions = true.
+Proof. exact regressions_fixed. Qed.
 
 Print Assumptions C36_levenshtein_dp.
 Print Assumptions C36_levenshtein_recurrence.
@@ -152,9 +183,12 @@ Print Assumptions C36_right.
 Print Assumptions C36_repeat.
 Print Assumptions C36_hamming.
 Print Assumptions C36_translate.
+Print Assumptions C36_translate_prefix_behaviour.
 Print Assumptions C36_concat.
 Print Assumptions C36_greatest_least.
 Print Assumptions C36_hex_roundtrip.
+Print Assumptions C36_to_hex.
+Print Assumptions C36_from_hex_to_hex.
 Print Assumptions C36_base64_roundtrip.
 Print Assumptions C36_base32_group.
 Print Assumptions C36_base32_roundtrip_small.
@@ -167,6 +201,9 @@ Print Assumptions C36_bitwise_xor.
 Print Assumptions C36_bitwise_not.
 Print Assumptions C36_bitwise_not_value.
 Print Assumptions C36_shift.
+Print Assumptions C36_shift_nonneg_total.
+Print Assumptions C36_shift_ge64.
+Print Assumptions C36_shift_negative.
 Print Assumptions C36_shift_left_word.
 Print Assumptions C36_shift_right_arithmetic.
 Print Assumptions C36_shift_right_logical.
@@ -174,6 +211,9 @@ Print Assumptions C36_bit_count.
 Print Assumptions C36_civil_roundtrip.
 Print Assumptions C36_civil_roundtrip_inv.
 Print Assumptions C36_add_months_clamps.
-Print Assumptions C36_day_of_week_never_iso.
+Print Assumptions C36_day_of_week.
+Print Assumptions C36_day_of_week_iso.
+Print Assumptions C36_day_of_week_anchors.
 Print Assumptions C36_date_diff_month.
 Print Assumptions C36_deviations_witnessed.
+Print Assumptions C36_regressions_fixed.
